@@ -177,7 +177,7 @@ def validate(v: Verdict, prop: str, module: str, cfg: str, traces: List[dict], l
     for rj in rej:
         t = traces[rj.index]
         pieces = [(("msg" if CAT_CLASS.get(p) else "dirty"), to_real(p)) for p in t["pieces"]]
-        again.append(framing.run_stream(pieces, [e["fed"] for e in t["ev"]], t["thr"]))
+        again.append(framing.run_stream(pieces, [e["fed"] for e in t["ev"]], t["thr"], mini=True))
     crej, _, _ = tlc.validate_traces("TraceFraming", "TraceFraming.cfg", [{k: t[k] for k in ("thr", "clean", "msgs", "ev")} for t in again])
     v.notes["trace_validation"][label]["rejected_by_contract"] = len(crej)
     v.traces_validated += len(traces) - len(crej)
